@@ -4,7 +4,7 @@ use std::mem::swap;
 use std::rc::Rc;
 
 use clvm_rs::error::EvalErr;
-use num_bigint::ToBigInt;
+use num_bigint::{Sign, ToBigInt};
 
 use clvm_rs::allocator::{Allocator, NodePtr, SExp};
 use clvm_rs::cost::Cost;
@@ -22,7 +22,7 @@ use crate::classic::clvm_tools::stages::stage_0::TRunProgram;
 use crate::classic::clvm_tools::stages::stage_2::helpers::quote;
 use crate::classic::clvm_tools::stages::stage_2::operators::AllocatorRefOrTreeHash;
 
-use crate::util::{number_from_u8, u8_from_number};
+use crate::util::{u8_from_number, Number};
 
 #[derive(Clone)]
 pub struct DoOptProg {}
@@ -215,6 +215,12 @@ fn cons_r(allocator: &mut Allocator, args: NodePtr) -> Result<NodePtr, EvalErr> 
     }
 }
 
+/// The value of an atom used as an environment path.  Paths are unsigned:
+/// an atom with its top bit set (0x80, 0xffff ...) is not a negative number.
+fn path_value(atom: &[u8]) -> Number {
+    Number::from_bytes_be(Sign::Plus, atom)
+}
+
 fn path_from_args(
     allocator: &mut Allocator,
     sexp: NodePtr,
@@ -224,7 +230,7 @@ fn path_from_args(
         SExp::Atom => {
             // Only sexp in scope.
             let atom = allocator.atom(sexp);
-            let v = number_from_u8(atom.as_ref());
+            let v = path_value(atom.as_ref());
             if v <= bi_one() {
                 Ok(new_args)
             } else {
@@ -527,7 +533,7 @@ fn path_optimizer(
             match first
                 .get("atom")
                 .and_then(|a| atom(allocator, *a).ok())
-                .map(|atom| number_from_u8(&atom))
+                .map(|atom| path_value(&atom))
             {
                 Some(atom) => {
                     let node = NodePath::new(Some(atom)).add(NodePath::new(None).first());
@@ -540,7 +546,7 @@ fn path_optimizer(
             match rest
                 .get("atom")
                 .and_then(|a| atom(allocator, *a).ok())
-                .map(|atom| number_from_u8(&atom))
+                .map(|atom| path_value(&atom))
             {
                 Some(atom) => {
                     let node = NodePath::new(Some(atom)).add(NodePath::new(None).rest());
